@@ -362,8 +362,11 @@ def load_cases(outdir):
     cases = []
     p = os.path.join(outdir, "cases.jsonl")
     if os.path.exists(p):
-        for l in open(p):
-            cases.append(json.loads(l))
+        for l in open(p, errors="replace"):
+            try:
+                cases.append(json.loads(l))
+            except ValueError:
+                break   # truncated last line: the harness died mid-write (reported via its exit code)
     return cases
 
 
